@@ -73,7 +73,7 @@ type recLimiter struct {
 func (d *recLimiter) Acquire(ctx context.Context) (core.Listener, bool) {
 	d.calls++
 	d.ctxs = append(d.ctxs, ctx)
-	if d.alwaysNo || !verif.Bool("delegate.grant") {
+	if d.alwaysNo || (!verifGrantAll && !verif.Bool("delegate.grant")) {
 		return nil, false
 	}
 	d.grants++
